@@ -143,20 +143,20 @@ impl Dy {
 
 fn scalbn(mut x: f64, mut e: i64) -> f64 {
     while e > 1000 {
-        x *= 2f64.powi(1000);
+        x *= pow2(1000);
         e -= 1000;
         if !x.is_finite() {
             return x;
         }
     }
     while e < -1000 {
-        x *= 2f64.powi(-1000);
+        x *= pow2(-1000);
         e += 1000;
         if x == 0.0 {
             return x;
         }
     }
-    x * 2f64.powi(e as i32)
+    x * pow2(e)
 }
 
 /// num / den as f64 (relative error < 2^-60 before the final rounding). den != 0.
@@ -231,8 +231,22 @@ pub fn ulp64(x: f64) -> f64 {
     if x < f64::MIN_POSITIVE {
         return 5e-324;
     }
-    let e = ((x.to_bits() >> 52) & 0x7ff) as i32 - 1023;
-    2f64.powi(e - 52).max(5e-324)
+    // 2^(e-52), built from bits (powi would underflow through 1/2^1070 = 1/inf)
+    let e = ((x.to_bits() >> 52) & 0x7ff) as i64 - 1023;
+    pow2(e - 52)
+}
+
+/// 2^k as f64 for any k in the double range (subnormals included), exactly.
+pub fn pow2(k: i64) -> f64 {
+    if k > 1023 {
+        f64::INFINITY
+    } else if k >= -1022 {
+        f64::from_bits(((k + 1023) as u64) << 52)
+    } else if k >= -1074 {
+        f64::from_bits(1u64 << (k + 1074))
+    } else {
+        0.0
+    }
 }
 
 pub fn ulp32(x: f32) -> f64 {
@@ -241,10 +255,10 @@ pub fn ulp32(x: f32) -> f64 {
         return f64::INFINITY;
     }
     if x < f32::MIN_POSITIVE {
-        return 2f64.powi(-149);
+        return pow2(-149);
     }
-    let e = ((x.to_bits() >> 23) & 0xff) as i32 - 127;
-    2f64.powi(e - 23)
+    let e = ((x.to_bits() >> 23) & 0xff) as i64 - 127;
+    pow2(e - 23)
 }
 
 /// Square root of a non-negative rational as f64 (via f64 sqrt of a 2^-60-accurate quotient:
@@ -265,5 +279,10 @@ mod tests {
             assert_eq!(Dy::from_f64(x).to_f64(), x);
         }
         assert_eq!(ratio(&Dy::from_f64(1.0), &Dy::from_f64(3.0)), 1.0 / 3.0);
+        assert_eq!(ulp64(3.7e-307), pow2(-1070));
+        assert_eq!(ulp64(1.0), 2f64.powi(-52));
+        assert_eq!(ulp64(1e-320), 5e-324);
+        assert_eq!(pow2(-1074), 5e-324);
+        assert_eq!(pow2(10), 1024.0);
     }
 }
